@@ -140,7 +140,7 @@ def run(ctx):
             if sw.term.kind == 'switch' and sw.term.j.get('dty') == 'bool':
                 arms = dict(sw.term.switch_arms())
                 reach_t = pan.reach([arms['true']], ('normal',), avoid=[arms['false']])
-                errs = [bb for bb, cls_, det in pan.ret_assignments() if cls_ == 'err' and bb in reach_t]
+                errs = [bb for bb, cls_, det in pan.ret_assignments() if cls_ in ('err', 'residual') and bb in reach_t]      # `return Err(..)` or `helper()?`
                 oks = [bb for bb, cls_, det in pan.ret_assignments() if cls_ == 'ok' and bb in reach_t]
                 ctx.ob('R15.4', 'diesel: a broken transaction manager is rejected for every method', bool(errs) and not oks and not any(x.idx in reach_t for x in msw),
                        ctx.where(pc, sw.term.line), '', construct='diesel:broken-reject')
